@@ -185,3 +185,46 @@ def calculate_t_params(rep, ctx, rule="R11"):
         rep.add(rule, "calculate_t:uses:%s" % nm, ok,
                 "parameter `%s` takes part in the number of opened columns" % nm if ok else
                 "parameter `%s` of calculate_t no longer influences its result" % nm, b.span)
+    # the cap: some return path hands back the codeword length itself (there are only that many columns to open), either
+    # as an unmodified copy of the third parameter or through a `min` with it.
+    if b.arg_count >= 3:
+        _, _, seen = R11.origins(g, (b.id, 0))
+        capped = (b.id, 3) in seen
+        if not capped:
+            for bid in sorted(g.scope):
+                for i, t in f.bodies[bid].calls():
+                    if (t.get("callee") or "").rsplit("::", 1)[-1] in ("min", "clamp") and t.get("dst") and \
+                            (bid, t["dst"]["l"]) in seen:
+                        for a in t["args"]:
+                            if a["k"] in ("copy", "move"):
+                                _, _, s2 = R11.origins(g, (bid, a["pl"]["l"]))
+                                capped = capped or (b.id, 3) in s2
+        rep.add(rule, "calculate_t:capped-by-codeword-length", capped,
+                "the returned count is capped by the codeword length (one return path yields the length itself)" if capped else
+                "no return path of calculate_t yields the codeword length itself: the number of opened columns (and the "
+                "proof) is no longer bounded by the number of columns", b.span)
+    # the n/|F| term: the field size is a *data* operand of the returned count (a test that only guards an error
+    # exit leaves t the same for every field, i.e. the term is dropped from the formula).
+    from ..flow import DATA, ALIAS
+    srcs = []
+    for bid in sorted(g.scope):
+        body = f.bodies[bid]
+        for blk in body.blocks:
+            for st in blk["stmts"]:
+                for o in st["rv"].get("ops", ()):
+                    if o.get("k") == "const" and any(w in (o.get("def") or "") for w in ("MODULUS", "BIT_SIZE")):
+                        srcs.append((bid, st["dst"]["l"]))
+        for i, t in body.calls():
+            c = t.get("callee") or ""
+            if any(w in c for w in ("size_in_bits", "num_bits", "MODULUS", "characteristic")) and t.get("dst"):
+                srcs.append((bid, t["dst"]["l"]))
+    if not srcs:
+        if b.arg_count <= 3:
+            rep.add(rule, "calculate_t:field-size-term", False,
+                    "calculate_t reads no field-size constant (MODULUS_BIT_SIZE or equivalent): the n/|F| term is gone", b.span)
+        return
+    g.reach(srcs, want=(b.id, 0), kinds=(DATA, ALIAS))
+    ok = g.last_goal is not None
+    rep.add(rule, "calculate_t:field-size-term", ok,
+            "the field size is a data operand of the returned count (the n/|F| term of the soundness bound)" if ok else
+            "the field size only guards an exit of calculate_t; the returned count is computed without the n/|F| term", b.span)
